@@ -27,6 +27,22 @@ from rebench import rebench as rb_main  # noqa: E402
 THEOREMS = ['RB.ConfigDoc.c19_never_crash', 'RB.ConfigDoc.c19_accepted_or_rejected', 'RB.ConfigDoc.c19_schema_invalid_rejected']
 
 
+class RefLoader(yaml.SafeLoader):
+    """what a configuration file means: YAML 1.1 as PyYAML's safe loader reads it, except that scalars
+    that look like a date or a time are the text that is written (ReBench has no date values; fix
+    'values in the configuration that look like a date are read as the text written'). Restated here,
+    not taken from the code under test."""
+
+
+RefLoader.yaml_implicit_resolvers = {
+    ch: [(tag, rx) for tag, rx in rs if tag != 'tag:yaml.org,2002:timestamp']
+    for ch, rs in yaml.SafeLoader.yaml_implicit_resolvers.items()}
+
+
+def ref_load(text):
+    return yaml.load(text, Loader=RefLoader)
+
+
 # ------------------------------------------------------------------ wire format
 def is_recursive(o, stack=()):
     """a self-referential anchor gives a cyclic object: the model cannot be given it"""
@@ -161,7 +177,7 @@ def gen_valid(rng):
         if rng.random() < 0.2:
             x['description'] = rng.choice(['an experiment', 'exp {x}'])
         if rng.random() < 0.2:
-            x['data_file'] = rng.choice(['exp%d.data', 'exp{%d}.data', 'nodir/exp%d.data']) % i
+            x['data_file'] = rng.choice(['exp%d.data', 'exp{%d}.data', 'nodir/exp%d.data', 'notes.txt/exp%d.data']) % i
         if rng.random() < 0.15:
             x['action'] = 'benchmark'
         if rng.random() < 0.1:
@@ -459,6 +475,10 @@ experiments:
                               'executors:\n  E1: {executable: x}\nexperiments:\n  X: {suites: [S1], executions: [E1]}\n'),
     ('pif-denormal-non-exclusive', 'benchmark_suites:\n  S1: {gauge_adapter: Time, command: "c %(benchmark)s", execute_exclusively: false, benchmarks: [b1, {b2: {parallel_interference_factor: 1.0e-320}}]}\n'
                                    'executors:\n  E1: {executable: x}\nexperiments:\n  X: {suites: [S1], executions: [E1]}\n'),
+    ('data-file-below-regular-file', 'benchmark_suites:\n  S1: {gauge_adapter: Time, command: c, benchmarks: [b]}\nexecutors:\n  E1: {executable: x}\n'
+                                     'experiments:\n  X: {suites: [S1], executions: [E1], data_file: notes.txt/exp.data}\n'),
+    ('default-data-file-below-regular-file', 'default_data_file: notes.txt/sub/all.data\nbenchmark_suites:\n  S1: {gauge_adapter: Time, command: c, benchmarks: [b]}\n'
+                                             'executors:\n  E1: {executable: x}\nexperiments:\n  X: {suites: [S1], executions: [E1]}\n'),
     ('empty-key', 'benchmark_suites:\n  "": {gauge_adapter: Time, command: c, benchmarks: [b]}\n'),
 ]
 
@@ -497,6 +517,9 @@ def run_impl(ck, text, cli, idx):
     comparison, phase, frame that raised, result)"""
     wd = os.path.join(ck.scratch, 'w')
     os.makedirs(wd, exist_ok=True)
+    if not os.path.exists(os.path.join(wd, 'notes.txt')):
+        with open(os.path.join(wd, 'notes.txt'), 'w') as f:   # a regular file where a data file wants a directory
+            f.write('not a directory\n')
     conf = os.path.join(wd, 'c%d.conf' % (idx % 50))
     with open(conf, 'w') as f:
         f.write(text)
@@ -543,7 +566,7 @@ def unreadable_files(ck, doc, cli=()):
 
 def is_recursive_text(text):
     try:
-        return is_recursive(yaml.safe_load(text))
+        return is_recursive(ref_load(text))
     except Exception:
         return False
 
@@ -556,7 +579,7 @@ def check_docs(ck, cases, variant_repaired=True, search=True):
         kind, text, cli, valid = case[:4]
         group = case[4] if len(case) > 4 else None
         try:
-            doc = yaml.safe_load(text)
+            doc = ref_load(text)
             yaml_ok = True
         except yaml.YAMLError:
             doc, yaml_ok = None, False
@@ -637,7 +660,7 @@ def neighbourhood(ck, items, variant_repaired):
     for (text, cli) in items:
         ck.count('neighbourhood-searches')
         try:
-            doc = yaml.safe_load(text)
+            doc = ref_load(text)
         except Exception:
             continue
         if not isinstance(doc, (dict, list)):
@@ -827,12 +850,14 @@ def run(ck):
             valid = False
         if '-c' in cli and unreadable_files(ck, cfg, cli):
             valid = False   # -c has to truncate a data file whose directory does not exist
+        if any(isinstance(x, dict) and str(x.get('data_file', '')).startswith('notes.txt/') for x in cfg['experiments'].values()):
+            valid = False   # a data file below a regular file cannot be read: rejected with a diagnostic when the data is loaded
         grp = len(cases)
         cases.append(('valid' if valid else 'dangling-cli', dump(cfg), cli, valid, grp))
         ftext = factor(ck.rng, cfg)
         if ftext is not None:
             # parsed, the factored text must be the same configuration (plus the dot key)
-            back = yaml.safe_load(ftext)
+            back = ref_load(ftext)
             back.pop('.defs', None)
             if same_doc(back) != same_doc(cfg):
                 raise lib.InfraError('factoring changed the configuration')
@@ -872,11 +897,12 @@ def cli_sessions(ck, thorough):
     """the real CLI in child processes: a valid configuration is accepted whatever the process is
     started in — the working directory (or --git-repo) is a git repository whose HEAD is ASCII, UTF-8,
     printed in Latin-1, or a raw Latin-1 commit object; the locale is UTF-8 or C"""
-    kinds = ['ascii', 'utf8', 'latin1-log', 'latin1-raw']
+    kinds = ['ascii', 'utf8', 'latin1-log', 'latin1-raw', 'unborn']
     scen = []
     for kind in kinds:
         scen.append((kind, 'cwd', {}))
     scen.append(('latin1-raw', 'git-repo', {}))
+    scen.append(('unborn', 'git-repo', {}))
     scen.append(('latin1-log', 'cwd', {'LC_ALL': 'C', 'PYTHONUTF8': '0', 'PYTHONCOERCECLOCALE': '0'}))
     if thorough:
         scen += [(k, 'git-repo', {'LC_ALL': 'C', 'PYTHONUTF8': '0', 'PYTHONCOERCECLOCALE': '0'}) for k in kinds]
